@@ -525,3 +525,50 @@ def dump_sites(prog):
         out[s.key] = {'signature': s.signature(), 'consumer': s.consumer,
                       'where': s.where, 'text': short(s.call, 100)}
     return members, out
+
+
+# ---------------------------------------------------------------------- A4x: accumulating edge scans are exhaustive
+def check_exhaustive_scans(ctx, module_prefix='adsg_core.graph', rule='A4x'):
+    """A loop over the in- / out-edges (or neighbours) of a node that *collects* what it finds (adds to a set / list
+    that outlives the loop) has to look at every edge: it contains no `break` of its own.  Loops that only search for
+    the existence of something (no accumulation) may stop at the first hit - the code base has six of those and none
+    of the collecting loops stops early."""
+    from ..astutil import call_name, short
+    scans = ('iter_in_edges', 'iter_out_edges', 'iter_edges', 'in_edges', 'out_edges', 'predecessors', 'successors')
+    n = 0
+
+    def own_breaks(stmts):
+        out = []
+        for st in stmts:
+            if isinstance(st, (ast.For, ast.While)):
+                out += own_breaks(st.orelse)
+                continue
+            if isinstance(st, ast.Break):
+                out.append(st)
+            for f in ('body', 'orelse', 'finalbody'):
+                b = getattr(st, f, None)
+                if isinstance(b, list) and b and isinstance(b[0], ast.stmt):
+                    out += own_breaks(b)
+            for h in getattr(st, 'handlers', []):
+                out += own_breaks(h.body)
+        return out
+    for fn in ctx.prog.all_functions():
+        if not fn.module.name.startswith(module_prefix) or isinstance(fn.node, ast.Lambda):
+            continue
+        for lp in [x for x in ast.walk(fn.node) if isinstance(x, ast.For)]:
+            if not any(isinstance(c, ast.Call) and any(call_name(c) == s or (call_name(c) or '').startswith(s + '_')
+                                                       for s in scans) for c in ast.walk(lp.iter)):
+                continue
+            body = [x for st in lp.body for x in ast.walk(st)]
+            acc = [x for x in body if (isinstance(x, ast.Call) and call_name(x) in ('add', 'update', 'append', 'extend'))
+                   or (isinstance(x, ast.AugAssign) and isinstance(x.op, ast.BitOr))]
+            if not acc:
+                continue
+            n += 1
+            ctx.touch(fn)
+            brk = own_breaks(lp.body)
+            ctx.ob(rule, fkey(fn, rule, f'collecting-scan-exhaustive:{short(lp.iter, 50)}'), not brk,
+                   f'{fn.module.relpath}:{lp.lineno}',
+                   'a loop that collects over the edges / neighbours of a node examines all of them (no break)',
+                   'no break' if not brk else f'`break` at L{brk[0].lineno}: edges after it are never examined')
+    return n
